@@ -633,7 +633,7 @@ def gen_all_algos_plan(rng, tier="quick", stateful=False, random_algos=True):
             rows = sorted(rng.sample(dates, rng.randint(2, len(dates))))
             data = []
             for _ in rows:
-                ws = [rng.random() if rng.random() < 0.8 else None for _ in names]
+                ws = [rng.random() if rng.random() < 0.65 else None for _ in names]  # dated targets drop names
                 tot = sum(w for w in ws if w is not None) or 1.0
                 data.append([None if w is None else round(w / tot * rng.choice([1.0, 0.7]), 4) for w in ws])
             extra[nm] = _frame(names, data, rows=rows)
